@@ -21,6 +21,7 @@ RULE = ("TLC cross-check: the complete state graph of an independently written T
         "the tracker) and the tracker's JSON file are compared with the reference model. Histories are NOT merged (hidden state such as caches "
         "must not hide); 'states' counts distinct (counters, file hash) snapshots. non-trivial = history with a valid call that executes >= 1 circuit")
 RULE += ' Also: a circuit with two consecutive non-gate operations (one non-native segment).'
+RULE += ' Round 5: batches of 63-130 circuits on every runner kind.'
 ASSUMPTIONS = ["sampling randomness is scripted (default answers); counters are observed through n_circuits_executed / n_jobs_executed",
                "zero-width circuits and batches mixing unbound circuits are outside the alphabet", "what the tracker's own job counter does for a batch / a distribution call is not fixed by the statement: only monotonicity is required there"]
 BOUNDS = {"quick": {"history_depth": 2, "events": "full menu"}, "thorough": {"history_depth": 3, "events": "full menu at depth<=2, core menu at depth 3"}}
